@@ -618,6 +618,63 @@ pub fn spaces(tier: Tier) -> Vec<Space> {
             }
         }));
     }
+    // input / output fragments cut short: every strict prefix of a well-formed serialised TxIn / TxOut (whose script-size
+    // field then declares more script bytes than remain, or whose fixed-width fields are incomplete) must be rejected by
+    // TxIn::from_hex / TxOut::from_hex instead of yielding an object with a shortened or padded script
+    {
+        let scripts: Vec<Vec<u8>> = vec![vec![], vec![0x51], standard_templates()[0].clone(), [vec![0x4c, 80], (0..80u8).collect::<Vec<_>>(), vec![0xac]].concat(), vec![0x00, 0x6a, 0x04, 1, 2, 3, 4], vec![0x6a, 0x01, 0x4b]];
+        let mut frags: Vec<(bool, Vec<u8>)> = vec![];
+        for sc in &scripts {
+            let mut o = 0x0102030405060708u64.to_le_bytes().to_vec();
+            o.push(sc.len() as u8);
+            o.extend_from_slice(sc);
+            frags.push((false, o));
+            let mut i = vec![0x11u8; 32];
+            i.extend_from_slice(&7u32.to_le_bytes());
+            i.push(sc.len() as u8);
+            i.extend_from_slice(sc);
+            i.extend_from_slice(&0xfffffffeu32.to_le_bytes());
+            frags.push((true, i));
+        }
+        let mut table: Vec<(usize, usize)> = vec![];
+        for (k, (_, f)) in frags.iter().enumerate() {
+            for cut in 0..=f.len() {
+                table.push((k, cut));
+            }
+        }
+        let frags = Arc::new(frags);
+        let n = table.len() as u64;
+        v.push(Space::new("txio-fragment-prefixes", n, move |case, acc| {
+            let (k, cut) = table[case.idx as usize];
+            let (is_in, full) = &frags[k];
+            let b = &full[..cut];
+            acc.evaluations += 1;
+            acc.transitions += 1;
+            acc.traces += 1;
+            acc.nontrivial_structural += 1;
+            let name = if *is_in { "TxIn::from_hex" } else { "TxOut::from_hex" };
+            let input = json!({"fn": name, "fragment_hex": hx(full), "prefix_len": cut, "prefix_hex": hx(b)});
+            let got = guard(|| if *is_in { bsv::TxIn::from_hex(&hex::encode(b)).and_then(|x| x.to_bytes()) } else { bsv::TxOut::from_hex(&hex::encode(b)).and_then(|x| x.to_bytes()) });
+            match got {
+                Ok(Ok(back)) => {
+                    acc.outcome(&[0xf7, 1, (cut == full.len()) as u8]);
+                    if cut < full.len() {
+                        acc.violate(format!("C02/{}/kind=truncated-fragment-accepted", name), case.idx, case.json(input), format!("a strict prefix of a well-formed fragment is accepted and re-serialised as {}", hx(&back)));
+                    } else if &back != full {
+                        acc.violate(format!("C02/{}/kind=bytes-not-preserved", name), case.idx, case.json(input), format!("re-serialised as {}", hx(&back)));
+                    }
+                }
+                Ok(Err(e)) => {
+                    acc.outcome(&[0xf7, 0, (cut == full.len()) as u8]);
+                    if cut == full.len() {
+                        // every script in the list is complete
+                        acc.violate(format!("C02/{}/kind=valid-fragment-rejected", name), case.idx, case.json(input), e.to_string());
+                    }
+                }
+                Err(p) => acc.violate(format!("C02/{}/kind=panic@{}", name, panic_site(&p)), case.idx, case.json(input), p),
+            }
+        }));
+    }
     v.push(Space::new("prefix-helper", HELPER_N.len() as u64, |case, acc| {
         let n = HELPER_N[case.idx as usize];
         acc.evaluations += 1;
